@@ -24,6 +24,8 @@ import (
 	"sort"
 	"strings"
 	"sync"
+	"sync/atomic"
+	"time"
 
 	"seehuhn.de/go/pdf"
 
@@ -120,8 +122,15 @@ type faultSrc struct {
 	hit   bool
 	sites []site // recorded in the counting (fault-free) run only
 	trace bool
-	at    site // site of the first failed operation
+	at    site            // site of the first failed operation
 	also  map[string]bool // functions whose operations failed later in the run
+	cur   *atomic.Value   // id of the scenario call in progress
+	fails []failedOp      // the failed operations (at most 256 are kept)
+}
+
+type failedOp struct {
+	at   site
+	call string
 }
 
 func (f *faultSrc) ReadAt(p []byte, off int64) (int, error) {
@@ -132,14 +141,24 @@ func (f *faultSrc) ReadAt(p []byte, off int64) (int, error) {
 		f.sites = append(f.sites, callSite())
 	}
 	bad := f.plan.faulty(i)
-	if bad && !f.hit {
-		f.hit = true
-		f.at = callSite()
-	} else if bad && len(f.also) < 8 {
-		if f.also == nil {
-			f.also = map[string]bool{}
+	if bad {
+		cs := callSite()
+		if !f.hit {
+			f.hit = true
+			f.at = cs
+		} else if len(f.also) < 8 {
+			if f.also == nil {
+				f.also = map[string]bool{}
+			}
+			f.also[cs.Fn] = true
 		}
-		f.also[callSite().Fn] = true
+		if len(f.fails) < 256 {
+			call := ""
+			if f.cur != nil {
+				call, _ = f.cur.Load().(string)
+			}
+			f.fails = append(f.fails, failedOp{cs, call})
+		}
 	}
 	f.mu.Unlock()
 	if bad {
@@ -161,8 +180,46 @@ type callOut struct {
 	Same      bool   `json:"same"`
 	Carries   bool   `json:"carries"`
 	Malformed bool   `json:"malformed"`
-	digest    string
-	msg       string
+	// the failed operation this outcome is attributed to: the first one during
+	// this call, else the last one before it (not judged)
+	At     string `json:"at,omitempty"`
+	Via    string `json:"via,omitempty"`
+	In     string `json:"in,omitempty"`
+	digest string
+	msg    string
+}
+
+// attribute fills in At/Via/In of every call.
+func attribute(outs []callOut, fails []failedOp) {
+	pos := map[string]int{}
+	for i, o := range outs {
+		pos[o.ID] = i
+	}
+	for i := range outs {
+		var pick *failedOp
+		inCall, pickPlain := false, false
+		for j := range fails {
+			p, ok := pos[fails[j].call]
+			if !ok {
+				continue
+			}
+			if p == i {
+				// within the call: the first failure at a site that is not a plain
+				// buffered read (those return their error), else the first
+				plain := strings.Contains(fails[j].at.Fn, "refill") || strings.Contains(fails[j].at.Fn, "streamReader") || strings.Contains(fails[j].at.Fn, "Discard")
+				if !inCall || (pickPlain && !plain) {
+					pick, inCall, pickPlain = &fails[j], true, plain
+				}
+				continue
+			}
+			if p < i && !inCall {
+				pick = &fails[j]
+			}
+		}
+		if pick != nil {
+			outs[i].At, outs[i].Via, outs[i].In = pick.at.Fn, pick.at.Via, pick.call
+		}
+	}
 }
 
 func digestBytes(b []byte) string {
@@ -257,13 +314,61 @@ type readScenario struct {
 	mode pdf.ReaderErrorHandling
 }
 
+// hangs counts runs that never returned (their goroutines cannot be stopped
+// and keep a core busy, so the enumeration of the partial-data variants is
+// cut short after maxHangs of them).
+var hangs atomic.Int32
+
+const maxHangs = 3
+
+// runReadWatched is runRead with a watchdog: a run whose source sees no
+// ReadAt call for noProgress although the run has not returned is hung.
+func (sc *readScenario) runReadWatched(src *faultSrc, noProgress time.Duration) []callOut {
+	done := make(chan []callOut, 1)
+	var cur atomic.Value
+	cur.Store("open#0")
+	src.cur = &cur
+	go func() { done <- sc.runReadCur(src, &cur) }()
+	last, lastChange := -1, time.Now()
+	tick := time.NewTicker(200 * time.Millisecond)
+	defer tick.Stop()
+	for {
+		select {
+		case outs := <-done:
+			return outs
+		case <-tick.C:
+			src.mu.Lock()
+			n := src.n
+			src.mu.Unlock()
+			if n != last {
+				last, lastChange = n, time.Now()
+			} else if time.Since(lastChange) > noProgress {
+				hangs.Add(1)
+				id := cur.Load().(string)
+				src.mu.Lock()
+				defer src.mu.Unlock()
+				return []callOut{{ID: id, Call: inKind(id), Cls: "hang", digest: "hang", msg: "the call did not return (no ReadAt for " + noProgress.String() + ")"}}
+			}
+		}
+	}
+}
+
+func (sc *readScenario) runRead(src *faultSrc) []callOut {
+	var cur atomic.Value
+	return sc.runReadCur(src, &cur)
+}
+
 var modeNames = map[pdf.ReaderErrorHandling]string{pdf.ErrorHandlingRecover: "recover", pdf.ErrorHandlingReport: "report", pdf.ErrorHandlingStop: "stop"}
 
 // runRead executes the scenario on src.  A panic is reported as an outcome
 // of the call it happened in.
-func (sc *readScenario) runRead(src *faultSrc) (outs []callOut) {
+func (sc *readScenario) runReadCur(src *faultSrc, progress *atomic.Value) (outs []callOut) {
 	cur := ""
 	oi := 0
+	set := func(c string) {
+		cur = c
+		progress.Store(fmt.Sprintf("%s#%d", c, oi))
+	}
 	mk := func(call string, digest string, err error) {
 		o := callOut{ID: fmt.Sprintf("%s#%d", call, oi), Call: call, Cls: "ok", digest: digest}
 		if err != nil {
@@ -279,7 +384,7 @@ func (sc *readScenario) runRead(src *faultSrc) (outs []callOut) {
 			outs = append(outs, callOut{ID: fmt.Sprintf("%s#%d", cur, oi), Call: cur, Cls: "err", msg: fmt.Sprintf("panic: %v", r), digest: "panic"})
 		}
 	}()
-	cur = "open"
+	set("open")
 	r, err := pdf.NewReader(src, int64(len(sc.doc.Bytes)), sc.doc.ReaderOptions(sc.mode))
 	if err != nil {
 		mk("open", "", err)
@@ -290,7 +395,7 @@ func (sc *readScenario) runRead(src *faultSrc) (outs []callOut) {
 	for i := range sc.doc.Objects {
 		o := &sc.doc.Objects[i]
 		oi = i
-		cur = "get"
+		set("get")
 		v, err := r.Get(o.Ref, true)
 		if err != nil {
 			mk("get", "", err)
@@ -298,7 +403,7 @@ func (sc *readScenario) runRead(src *faultSrc) (outs []callOut) {
 			mk("get", valueDigest(v), nil)
 		}
 		if stm, ok := v.(*pdf.Stream); ok && err == nil {
-			cur = "decode"
+			set("decode")
 			rd, err := pdf.DecodeStream(r, nil, stm)
 			if err != nil {
 				mk("decode", "", err)
@@ -309,7 +414,7 @@ func (sc *readScenario) runRead(src *faultSrc) (outs []callOut) {
 			}
 		}
 		if wantsDecode(sc.doc, i) {
-			cur = "Decode"
+			set("Decode")
 			d, err := pdf.Decode(pdf.CursorAt(x, nil), o.Ref, deepDecode)
 			mk("Decode", d, err)
 		}
@@ -656,10 +761,14 @@ func run(ctx *core.Ctx) error {
 	ctx.Ev.Set("fault_runs", st.runs)
 	ctx.Ev.Set("fault_sites", st.sites)
 	ctx.Ev.Set("model_operations", len(ops))
+	if missing == nil {
+		missing = []string{}
+	}
 	ctx.Ev.Set("model_operations_not_struck_by_a_real_fault", missing)
 	ctx.Ev.Set("faults_at_error_ignoring_helpers_call_returned_ok", st.ignoredOK)
 	ctx.Ev.Set("faults_at_error_ignoring_helpers_call_returned_error", st.ignoredEr)
-	ctx.Ev.Exhaustive = true
+	ctx.Ev.Exhaustive = hangs.Load() < maxHangs
+	ctx.Ev.Set("runs_that_hung", int(hangs.Load()))
 	ctx.Ev.Set("exhaustive_scope", "per generated document and scenario: every index k of a ReadAt / Write / Seek call, both plans, with and without partial data; the documents are seeded samples")
 	return nil
 }
@@ -689,6 +798,7 @@ func enumerateRead(ctx *core.Ctx, sp docSpec, di int, doc *shared.Doc, mode pdf.
 		}
 	}
 	out := make([]readRun, len(jobs))
+	var skipped atomic.Int32
 	var wg sync.WaitGroup
 	sem := make(chan struct{}, 12)
 	for ji, j := range jobs {
@@ -698,8 +808,15 @@ func enumerateRead(ctx *core.Ctx, sp docSpec, di int, doc *shared.Doc, mode pdf.
 			defer wg.Done()
 			defer func() { <-sem }()
 			src := &faultSrc{r: bytes.NewReader(doc.Bytes), plan: j.plan, err: &injected{fmt.Sprintf("%s/%d", j.plan.Plan, j.plan.K)}}
-			outs := sc.runRead(src)
+			if j.plan.Partial && hangs.Load() >= maxHangs {
+				skipped.Add(1)
+				return
+			}
+			outs := sc.runReadWatched(src, 6*time.Second)
 			compare(baseOuts, outs)
+			src.mu.Lock()
+			attribute(outs, src.fails)
+			src.mu.Unlock()
 			rr := readRun{Side: "read", Doc: sp.Name, Mode: modeNames[mode], Plan: j.plan, Hit: src.hit, Calls: outs, Outs: []wOut{}, Count: 1, docIx: di}
 			for fn := range src.also {
 				rr.also = append(rr.also, fn)
@@ -714,9 +831,22 @@ func enumerateRead(ctx *core.Ctx, sp docSpec, di int, doc *shared.Doc, mode pdf.
 		}(ji, j)
 	}
 	wg.Wait()
-	ctx.Ev.Eval(len(jobs) + 1)
+	if n := int(skipped.Load()); n > 0 {
+		// drop the runs that were not made
+		kept := out[:0]
+		for _, rr := range out {
+			if rr.Side != "" {
+				kept = append(kept, rr)
+			}
+		}
+		out = kept
+		ctx.Logf("%s/%s: %d partial-data runs skipped after %d runs hung (their goroutines keep spinning)", sp.Name, modeNames[mode], n, hangs.Load())
+		ctx.Ev.Add("partial_data_runs_skipped_after_hangs", int64(n))
+		ctx.Ev.Exhaustive = false
+	}
+	ctx.Ev.Eval(len(out) + 1)
 	st.mu.Lock()
-	st.runs += len(jobs)
+	st.runs += len(out)
 	for _, rr := range out {
 		if !rr.Hit {
 			continue
@@ -762,14 +892,16 @@ func callIndexOfReads(sc *readScenario, doc *shared.Doc, n int) []string {
 		name string
 		upto int
 	}{}
-	snap := func(name string) { marks = append(marks, struct {
-		name string
-		upto int
-	}{name, src.n}) }
+	snap := func(name string) {
+		marks = append(marks, struct {
+			name string
+			upto int
+		}{name, src.n})
+	}
 	func() {
 		defer func() { recover() }()
 		r, err := pdf.NewReader(src, int64(len(doc.Bytes)), doc.ReaderOptions(sc.mode))
-		snap("open")
+		snap("open#0")
 		if err != nil {
 			return
 		}
@@ -846,6 +978,8 @@ func enumerateWrite(ctx *core.Ctx, sp docSpec, di int, st *stats) ([]readRun, in
 
 func outcomeClass(c callOut) string {
 	switch {
+	case c.Cls == "hang":
+		return "hangs"
 	case c.digest == "panic":
 		return "panic"
 	case c.Cls == "ok" && c.Same:
@@ -925,8 +1059,9 @@ func judgeAndReport(ctx *core.Ctx, runs []readRun, specs []docSpec) error {
 		return core.Infra("Trace_IOFault rejected %d runs but none of their calls", len(bad))
 	}
 	type agg struct {
-		n     int
-		first readRun
+		n            int
+		first        readRun
+		plain, plans map[string]bool
 	}
 	byKey := map[string]*agg{}
 	for _, b := range bad2 {
@@ -934,11 +1069,26 @@ func judgeAndReport(ctx *core.Ctx, runs []readRun, specs []docSpec) error {
 		k := violationKey(r)
 		a := byKey[k]
 		if a == nil {
-			a = &agg{first: r}
+			a = &agg{first: r, plain: map[string]bool{}, plans: map[string]bool{}}
 			byKey[k] = a
 		}
 		a.n += r.Count
+		a.plans[r.Plan.Plan] = true
+		if !r.Plan.Partial {
+			a.plain[r.Plan.Plan] = true
+			if a.first.Plan.Partial {
+				a.first = r
+			}
+		}
 	}
+	final := map[string]*agg{}
+	for k, a := range byKey {
+		if len(a.plain) == 0 && a.first.Side == "read" {
+			k += "/only-when-data-comes-with-the-error"
+		}
+		final[k] = a
+	}
+	byKey = final
 	for _, k := range core.SortedKeys(byKey) {
 		a := byKey[k]
 		sp := specs[a.first.docIx]
@@ -955,28 +1105,53 @@ func inKind(in string) string {
 	return in
 }
 
-// violationKey: side / (mode for NewReader) / where the fault struck / plan /
-// which call misbehaved and how.  No offsets, no k, no messages.
+// symptom names how a call misbehaved, in the words of the property.
+func symptom(c callOut) string {
+	switch outcomeClass(c) {
+	case "ok-but-different":
+		return "swallowed(ok-with-different-result)"
+	case "malformed-error-not-carrying":
+		return "blamed-on-the-file(malformed-error-without-the-source-error)"
+	case "io-error-classified-malformed":
+		return "source-error-classified-malformed"
+	case "other-error-not-carrying":
+		return "other-error-without-the-source-error"
+	}
+	return outcomeClass(c)
+}
+
+// violationKey names the root cause as far as it can be observed: the go-pdf
+// function that issued the failed operation (with the landmark above it),
+// the ReaderErrorHandling mode where NewReader is concerned, and the symptom.
+// No offsets, no k, no messages, not the call in which the symptom showed.
 func violationKey(r readRun) string {
 	if r.Side == "write" {
 		if !r.Hit {
 			return "write/no-fault-but-error"
 		}
-		return fmt.Sprintf("write/%s/sink-failure-unreported/at=%s<%s/%s", r.Mode, r.At, r.Via, r.Plan.Plan)
+		return fmt.Sprintf("write/%s/sink-failure-unreported/at=%s<%s", r.Mode, r.At, r.Via)
 	}
 	if !r.Hit {
 		return "read/no-fault-but-different"
 	}
 	c := r.Calls[0]
-	where := r.At
-	if r.Via != "" {
-		where += "<" + r.Via
+	at, via, in := c.At, c.Via, c.In
+	if at == "" {
+		at, via, in = r.At, r.Via, r.In
+	}
+	where := at
+	if via != "" {
+		where += "<" + via
 	}
 	mode := ""
-	if inKind(r.In) == "open" || c.Call == "open" {
-		mode = "[" + r.Mode + "]"
+	if inKind(in) == "open" || c.Call == "open" {
+		mode = "NewReader[" + r.Mode + "]"
 	}
-	return fmt.Sprintf("read/fault-in=%s%s@%s/%s/%s:%s", inKind(r.In), mode, where, r.Plan.Plan, c.Call, outcomeClass(c))
+	if c.Cls == "hang" {
+		// a call that never returns: named by the function that issued the failed read only
+		return fmt.Sprintf("read/@%s/hangs", at)
+	}
+	return fmt.Sprintf("read/%s@%s/%s", mode, where, symptom(c))
 }
 
 func describe(r readRun) string {
@@ -985,11 +1160,15 @@ func describe(r readRun) string {
 			r.Mode, r.Plan.K, r.Plan.Plan, r.At, r.Via, r.Outs[0].Call, r.Outs[0].Cls)
 	}
 	c := r.Calls[0]
-	s := fmt.Sprintf("mode %s, ReadAt call %d (%s, partial=%v, issued by %s", r.Mode, r.Plan.K, r.Plan.Plan, r.Plan.Partial, r.At)
+	s := fmt.Sprintf("mode %s, plan %s(%d) data-with-error=%v (first failing ReadAt issued by %s", r.Mode, r.Plan.Plan, r.Plan.K, r.Plan.Partial, r.At)
 	if r.Via != "" {
 		s += " under " + r.Via
 	}
-	s += fmt.Sprintf(" during %s) fails: %s -> %s", r.In, c.Call, outcomeClass(c))
+	s += fmt.Sprintf(" during %s", r.In)
+	if c.At != "" && (c.At != r.At || c.In != r.In) {
+		s += fmt.Sprintf("; the one attributed to this call by %s during %s", c.At, c.In)
+	}
+	s += fmt.Sprintf("): %s -> %s", c.ID, outcomeClass(c))
 	if c.msg != "" {
 		s += " (" + c.msg + ")"
 	}
